@@ -84,6 +84,7 @@ impl<T: Write + Read + Seek> E57Writer<T> {
     /// Registers a new E57 extension used by this file.
     pub fn register_extension(&mut self, extension: Extension) -> Result<()> {
         Extension::validate_name(&extension.namespace)?;
+        Extension::validate_name_start(&extension.namespace)?;
         if extension.url.is_empty() {
             // An XML namespace prefix cannot be bound to an empty namespace name
             Error::invalid("The URL of an extension must not be empty")?
